@@ -59,6 +59,9 @@ def tail_combo(rng):
     if r < 0.25:
         return ""
     sep = rng.choice(["-", "-", "", ".", "_"])
+    if r < 0.31:
+        # ESCAPED brackets (literal text) inside an optional group: `[ \[TAG\]]`, `[-\[TAG[NUM]\]]`
+        return rng.choice(["[%s\\[TAG\\]]", "[%s\\[TAG[NUM]\\]]", "[%s\\[TAG\\]NUM]"]) % (sep or " ")
     if r < 0.45:
         return "[%sTAG]" % sep
     if r < 0.6:
